@@ -252,7 +252,7 @@ func ruleSnapshotIsolation(c *Ctx, rule string) {
 			}
 		}
 	})
-	r.Floor(rule, "fields initialised by Copy", len(stored), 10)
+	r.Floor(rule, "fields initialised by Copy", len(stored), 8)
 	for i := 0; i < st.NumFields(); i++ {
 		f := st.Field(i)
 		if !isRefType(f.Type()) && !hasRefField(f.Type()) {
@@ -472,7 +472,7 @@ func ruleHandlersOwnCopy(c *Ctx, rule string) {
 			handlers = append(handlers, sc)
 		}
 	})
-	r.Floor(rule, "instruction handlers called by matchInstruction", len(handlers), 16)
+	r.Floor(rule, "instruction handlers called by matchInstruction", len(handlers), 10)
 	for _, h := range handlers {
 		ob := r.Ob(rule, fnName(h)+" works on its own copy of the state", c.pos(h.Pos()))
 		cur := h.Params[1]
